@@ -1,14 +1,17 @@
 //! C12: teardown in any order is safe and releases everything.
 //!
 //! A population of real a10 objects on one simulated ring — the `Ring`, extra
-//! `SubmissionQueue` clones, regular-descriptor `AsyncFd`s, operations in every
+//! `SubmissionQueue` clones, `AsyncFd`s of regular AND direct descriptors (the
+//! ring is built `with_direct_descriptors`, a direct `AsyncFd` is opened through
+//! the public API before the script starts), operations in every
 //! status (never polled, published, in flight, done-unpolled, abandoned,
 //! complete), a `ReadBufPool` and the `ReadBuf`s produced by completed pool
 //! reads — is dropped in every order, with `Ring::poll` calls and kernel
 //! completions in between. Observed through the simulated kernel and the
 //! interposed libc calls: every `io_uring_enter` / `io_uring_register` call,
 //! CLOSE requests, `close(2)`, `mmap` / `munmap`, frees of operation state boxes
-//! and of the pool's allocations (tracking allocator).
+//! and of the pool's allocations (tracking allocator), the kernel's
+//! registered-file table (CLOSE with `file_index`, `IORING_REGISTER_FILES_UPDATE`).
 //!
 //! The ledger oracle (independent of the Lean model) runs after the last drop.
 
@@ -78,10 +81,41 @@ fn observe(kind: u32, addr: usize) {
     }
 }
 
-const KINDS: &[&str] = &["read", "write", "pread", "unlink"];
+const KINDS: &[&str] = &["read", "write", "pread", "unlink", "mread", "sendzc"];
+
+/// The operation's resources hold a reference to the pool, its `Ok` results are `ReadBuf`s.
+fn pool_kind(kind: &str) -> bool {
+    kind == "pread" || kind == "mread"
+}
+
+/// Multishot read with the pool: an `AsyncIterator`, every `Ok` item is a `ReadBuf`.
+struct MRead(Pin<Box<a10::io::MultishotRead<'static>>>);
+
+impl Pollable for MRead {
+    fn poll(&mut self, cx: &mut Context<'_>) -> Option<(String, Option<ReadBuf>)> {
+        match self.0.as_mut().poll_next(cx) {
+            Poll::Pending => None,
+            Poll::Ready(None) => Some(("ready none".into(), None)),
+            Poll::Ready(Some(Ok(buf))) => Some((format!("ready ok {}", buf.len()), Some(buf))),
+            Poll::Ready(Some(Err(e))) => Some((format!("ready err {}", err_num(&e)), None)),
+        }
+    }
+}
+
+/// CQE flags of a scripted completion: `0` final, `m` = F_MORE, `n` = F_NOTIF (final).
+fn parse_flags(t: &str) -> Option<u32> {
+    match t {
+        "0" => Some(0),
+        "m" => Some(simk::CQE_F_MORE),
+        "n" => Some(simk::CQE_F_NOTIF),
+        _ => None,
+    }
+}
 
 struct OpSlot {
     kind: String,
+    /// multishot stream (`mread`)
+    multi: bool,
     fd: usize,
     obj: Option<Box<dyn Pollable>>,
     state_addr: Option<usize>,
@@ -98,10 +132,15 @@ struct OpSlot {
 }
 
 struct FdObj {
+    /// regular descriptor number (-1 for a direct descriptor)
     raw: i32,
+    /// `Some(j)`: a DIRECT descriptor registered in slot `j` of the ring's file table
+    slot: Option<u32>,
     /// `Box<AsyncFd>` leaked so that futures can borrow it for `'static`.
     ptr: Option<*mut AsyncFd>,
+    /// regular: close requests executed; direct: release requests executed for its slot
     close_reqs: u32,
+    dropped_after_ring: bool,
 }
 
 struct Mapping {
@@ -126,6 +165,13 @@ struct TdCase {
     maps: Vec<Mapping>,
     pool_blocks: Vec<(u64, u32)>,
     pool_unregs: u32,
+    /// pool buffers the scripted completions may still select (never replenished: a
+    /// lower bound of what the real buffer ring holds; mirrors the model)
+    pbuf_left: u32,
+    /// size of the registered-file table (0 = none)
+    dtab: u32,
+    /// release requests executed per slot nobody of the population owns
+    foreign_rel: HashMap<u32, u32>,
     ring_fd_closes: u32,
     /// a10 system calls / munmaps seen after the ring descriptor was closed
     after_ring_close: u32,
@@ -185,6 +231,9 @@ impl TdCase {
             maps: Vec::new(),
             pool_blocks: Vec::new(),
             pool_unregs: 0,
+            pbuf_left: 16,
+            dtab: 0,
+            foreign_rel: HashMap::new(),
             ring_fd_closes: 0,
             after_ring_close: 0,
             begin_lines: vec!["bad-op".into()],
@@ -209,6 +258,19 @@ impl TdCase {
             return TdCase::invalid();
         };
         let sqh = get("sqh").unwrap_or(0);
+        // optional: bit k of `dmask` = descriptor k is a direct descriptor (slot k of a
+        // table of `dtab` entries)
+        let has = |k: &str| t.iter().skip(3).any(|x| x.starts_with(&format!("{k}=")));
+        let (dmask, dtab) = (get("dmask"), get("dtab"));
+        if (has("dmask") && dmask.is_none()) || (has("dtab") && dtab.is_none()) {
+            return TdCase::invalid();
+        }
+        let (dmask, dtab) = (dmask.unwrap_or(0), dtab.unwrap_or(0));
+        let dbits = 64 - dmask.leading_zeros() as u64;
+        if nfd > 4 || dtab > 16 || dmask >= (1u64 << nfd) || dbits > dtab {
+            return TdCase::invalid();
+        }
+        let ndirect = dmask.count_ones();
         if sq_len < 1 || cq_len < sq_len || ncl > 4 || nfd > 4 || max_ops > 16 || pool > 1
             || !sq_len.is_power_of_two() || !cq_len.is_power_of_two() || sq_len > 64 || cq_len > 128
             || cqh > u32::MAX as u64 || sqh > u32::MAX as u64
@@ -217,24 +279,36 @@ impl TdCase {
         }
         simk::reset();
         track::release_quarantine();
+        // Opening a direct descriptor before the script starts costs one submission and
+        // one completion each: start the counters that much earlier, so that the script
+        // starts at the header's values.
         simk::activate(simk::SetupCfg {
-            sq_head0: sqh as u32,
-            cq_head0: cqh as u32,
+            sq_head0: (sqh as u32).wrapping_sub(ndirect),
+            cq_head0: (cqh as u32).wrapping_sub(ndirect),
             ..Default::default()
         });
         simk::drain_events();
-        let ring = Ring::config()
+        let mut cfg = Ring::config()
             .with_submission_queue_size(sq_len as u32)
-            .with_completion_queue_size(cq_len as u32)
-            .build()
-            .expect("ring build");
+            .with_completion_queue_size(cq_len as u32);
+        if dtab > 0 {
+            cfg = cfg.with_direct_descriptors(dtab as u32);
+        }
+        let mut ring = cfg.build().expect("ring build");
         let rfd = simk::with_sim(|s| *s.rings.keys().next().unwrap());
         let clones: Vec<Option<SubmissionQueue>> = (0..ncl).map(|_| Some(ring.sq())).collect();
         let mut fds = Vec::new();
-        for _ in 0..nfd {
+        for k in 0..nfd {
+            if dmask & (1 << k) != 0 {
+                let Some(fd) = open_direct(&mut ring, rfd, k as u32) else {
+                    return TdCase::invalid();
+                };
+                fds.push(FdObj { raw: -1, slot: Some(k as u32), ptr: Some(Box::into_raw(Box::new(fd))), close_reqs: 0, dropped_after_ring: false });
+                continue;
+            }
             let raw = simk::with_ring(rfd, |r, _| r.fresh_fd());
             let b = Box::new(unsafe { AsyncFd::from_raw_fd(raw, ring.sq()) });
-            fds.push(FdObj { raw, ptr: Some(Box::into_raw(b)), close_reqs: 0 });
+            fds.push(FdObj { raw, slot: None, ptr: Some(Box::into_raw(b)), close_reqs: 0, dropped_after_ring: false });
         }
         let mut pool_blocks = Vec::new();
         let pool_obj = if pool == 1 {
@@ -276,8 +350,16 @@ impl TdCase {
                 KEv::Register { op, ret, .. } if op == simk::REGISTER_PBUF_RING => {
                     begin_lines.push(format!("register pbuf {}", if ret == 0 { "ok".to_string() } else { errno_name(-ret as i32) }));
                 }
+                KEv::Register { op, ret, .. } if op == simk::REGISTER_FILES2 => {
+                    begin_lines.push(format!("register files {}", if ret == 0 { "ok".to_string() } else { errno_name(-ret as i32) }));
+                }
                 _ => {}
             }
+        }
+        let mut feats = Vec::new();
+        if ndirect > 0 {
+            feats.push("direct/population".to_string());
+            feats.push(format!("direct/descriptors={ndirect}"));
         }
         util::drain_wakes();
         track::drain_frees();
@@ -299,13 +381,16 @@ impl TdCase {
             maps,
             pool_blocks,
             pool_unregs: 0,
+            pbuf_left: 16,
+            dtab: dtab as u32,
+            foreign_rel: HashMap::new(),
             ring_fd_closes: 0,
             after_ring_close: 0,
             begin_lines,
             steps_left: get("steps").unwrap_or(0) as u32,
             tearing: false,
             oracle: Vec::new(),
-            feats: Vec::new(),
+            feats,
             ring_dropped: false,
             poisoned: false,
             valid: true,
@@ -324,8 +409,55 @@ impl TdCase {
         }
     }
 
+    /// The regular descriptor of the population with this number.
     fn fd_index(&self, raw: i32) -> Option<usize> {
-        self.fds.iter().position(|f| f.raw == raw)
+        self.fds.iter().position(|f| f.slot.is_none() && f.raw == raw)
+    }
+
+    /// The direct descriptor of the population registered in slot `j`.
+    fn slot_owner(&self, j: u32) -> Option<usize> {
+        self.fds.iter().position(|f| f.slot == Some(j))
+    }
+
+    /// CLOSE requests with `file_index = j + 1` published and not yet consumed.
+    fn queued_slot_closes(&self, j: u32) -> u32 {
+        simk::with_ring(self.rfd, |r, _| {
+            let (mut h, t) = (r.sq_head(), r.sq_tail());
+            let mut n = 0;
+            let mut guard = 0;
+            while h != t && guard < 256 {
+                let e = r.sqe_at(h);
+                if e.opcode == simk::OP_CLOSE && e.file_index == j + 1 {
+                    n += 1;
+                }
+                h = h.wrapping_add(1);
+                guard += 1;
+            }
+            n
+        })
+    }
+
+    fn slot_registered(&self, j: u32) -> bool {
+        simk::with_ring(self.rfd, |r, _| r.files.as_ref().and_then(|f| f.get(j as usize)).is_some_and(|s| s.is_some()))
+    }
+
+    /// The kernel executed a release request (`how`) for slot `j` of the file table.
+    fn slot_released(&mut self, j: u32, how: &str) {
+        match self.slot_owner(j) {
+            Some(k) => {
+                self.fds[k].close_reqs += 1;
+                if self.fds[k].ptr.is_some() {
+                    self.fail("C12/direct-release-wrong-slot", format!("{how} released slot {j} of the file table while the AsyncFd that owns it (fd{k}) exists: somebody else's descriptor was unregistered"));
+                } else if self.fds[k].close_reqs > 1 {
+                    let n = self.fds[k].close_reqs;
+                    self.fail("C12/direct-slot-released-twice", format!("slot {j} (fd{k}) was released {n} times (last by {how})"));
+                }
+            }
+            None => {
+                *self.foreign_rel.entry(j).or_insert(0) += 1;
+                self.fail("C12/direct-release-wrong-slot", format!("{how} released slot {j} of the file table, which belongs to no direct descriptor of this ring's population"));
+            }
+        }
     }
 
     /// Objects that keep the shared ring state alive.
@@ -341,7 +473,7 @@ impl TdCase {
     fn pool_users(&self) -> usize {
         self.pool.is_some() as usize
             + self.bufs.iter().filter(|b| b.is_some()).count()
-            + self.ops.iter().filter(|o| o.kind == "pread" && o.obj.is_some() && !o.finished).count()
+            + self.ops.iter().filter(|o| pool_kind(&o.kind) && o.obj.is_some() && !o.finished).count()
     }
 
     fn status_of(&self, i: usize) -> &'static str {
@@ -397,9 +529,14 @@ impl TdCase {
                     }
                 }
                 simk::OP_CLOSE => {
-                    match self.fd_index(sqe.fd) {
-                        Some(k) if sqe.file_index == 0 => lines.push(format!("sqe close fd{k}")),
-                        _ => lines.push(format!("sqe close unknown:{}", sqe.fd)),
+                    if sqe.file_index != 0 {
+                        // a direct descriptor: `file_index` = slot + 1
+                        lines.push(format!("sqe close slot{}", sqe.file_index - 1));
+                    } else {
+                        match self.fd_index(sqe.fd) {
+                            Some(k) => lines.push(format!("sqe close fd{k}")),
+                            _ => lines.push(format!("sqe close unknown:{}", sqe.fd)),
+                        }
                     }
                     if sqe.user_data != 3 || sqe.flags & simk::IOSQE_CQE_SKIP_SUCCESS == 0 {
                         self.fail("C12/close-encoding", format!("close request with user_data {} flags {:#x}", sqe.user_data, sqe.flags));
@@ -483,6 +620,37 @@ impl TdCase {
                             }
                         }
                         simk::REGISTER_PBUF_RING => out.push(format!("register pbuf {res}")),
+                        simk::REGISTER_FILES_UPDATE | simk::REGISTER_FILES_UPDATE2 => {
+                            // `close_direct_fd`: slots set to -1
+                            let mut any = false;
+                            for part in detail.split(' ') {
+                                if let Some((n, v)) = part.strip_prefix("slot").and_then(|r| r.split_once(":=")) {
+                                    any = true;
+                                    match (n.parse::<u32>(), v) {
+                                        (Ok(n), "-1") => {
+                                            out.push(format!("register files-update slot{n} {res}"));
+                                            if ret >= 0 {
+                                                self.slot_released(n, "the synchronous FILES_UPDATE(-1)");
+                                            }
+                                        }
+                                        _ => {
+                                            out.push(format!("register files-update {part} {res}"));
+                                            self.fail("C12/direct-table-overwritten", format!("FILES_UPDATE installed `{part}` into the file table during teardown"));
+                                        }
+                                    }
+                                }
+                            }
+                            if !any {
+                                out.push(format!("register files-update slot? {res}"));
+                            }
+                            if ret < 0 {
+                                self.fail("C12/direct-sync-release-failed", format!("the synchronous release of a direct descriptor (FILES_UPDATE) failed with {res}{}", if ring_closed { ": the ring descriptor was already closed" } else { "" }));
+                            }
+                            self.feat("direct/sync-fallback");
+                            if self.ring_dropped {
+                                self.feat("direct/sync-fallback-after-ring");
+                            }
+                        }
                         other => out.push(format!("register op{other} {res}")),
                     }
                     if ring_closed {
@@ -491,12 +659,25 @@ impl TdCase {
                 }
                 KEv::CloseReq { fd, direct, res, .. } => {
                     let r = if res == 0 { "ok".to_string() } else { errno_name(-res) };
-                    match self.fd_index(fd) {
-                        Some(k) if !direct => {
-                            out.push(format!("closereq fd{k} {r}"));
-                            self.fds[k].close_reqs += 1;
+                    if direct {
+                        out.push(format!("closereq slot{fd} {r}"));
+                        self.slot_released(fd as u32, "a CLOSE request");
+                        self.feat("direct/close-request-executed");
+                        if self.holders() == 0 {
+                            // consumed by the flush of `Drop for Shared`
+                            self.feat("direct/close-flushed-by-last-handle");
                         }
-                        _ => out.push(format!("closereq unknown:{fd} {r}")),
+                    } else {
+                        match self.fd_index(fd) {
+                            Some(k) => {
+                                out.push(format!("closereq fd{k} {r}"));
+                                self.fds[k].close_reqs += 1;
+                            }
+                            _ => {
+                                out.push(format!("closereq unknown:{fd} {r}"));
+                                self.fail("C12/foreign-close", format!("a CLOSE request for descriptor {fd}, which is no regular descriptor of the population, was executed"));
+                            }
+                        }
                     }
                 }
                 KEv::CloseFd { fd, ret } => {
@@ -508,6 +689,7 @@ impl TdCase {
                         self.fds[k].close_reqs += 1;
                     } else {
                         out.push(format!("close unknown:{fd}"));
+                        self.fail("C12/foreign-close", format!("close(2) of descriptor {fd}, which is no regular descriptor of the population"));
                     }
                 }
                 KEv::Mmap { off, .. } => out.push(format!("mmap {}", region_of(off))),
@@ -577,8 +759,32 @@ impl TdCase {
             }
         }
         for (k, f) in self.fds.iter().enumerate() {
-            if f.ptr.is_some() && f.close_reqs > 0 {
+            if f.slot.is_none() && f.ptr.is_some() && f.close_reqs > 0 {
                 fails.push(("C12/fd-closed-early".into(), format!("`{op}`: descriptor fd{k} was closed while its AsyncFd exists")));
+            }
+        }
+        // the file table: a slot holds its file <=> exactly one live owner or one queued CLOSE
+        for k in 0..self.fds.len() {
+            let Some(j) = self.fds[k].slot else { continue };
+            let live = self.fds[k].ptr.is_some();
+            let queued = self.queued_slot_closes(j);
+            let reg = self.slot_registered(j);
+            if live && !reg {
+                fails.push(("C12/direct-slot-released-early".into(), format!("`{op}`: slot {j} of the file table was released while its AsyncFd (fd{k}) exists")));
+            }
+            if live && queued > 0 {
+                fails.push(("C12/direct-close-queued-early".into(), format!("`{op}`: a CLOSE for slot {j} is queued while its AsyncFd (fd{k}) exists")));
+            }
+            if !live && queued > 1 {
+                fails.push(("C12/direct-slot-released-twice".into(), format!("`{op}`: {queued} CLOSE requests for slot {j} (fd{k}) are queued")));
+            }
+            if !live && queued == 0 && reg {
+                fails.push(("C12/direct-slot-left-registered".into(), format!("`{op}`: the AsyncFd of direct descriptor fd{k} is gone and no CLOSE is queued for it, but slot {j} of the file table still holds its file (it stays open as long as the ring descriptor)")));
+            }
+        }
+        for j in 0..self.dtab {
+            if self.slot_owner(j).is_none() && self.queued_slot_closes(j) > 0 {
+                fails.push(("C12/direct-release-wrong-slot".into(), format!("`{op}`: a CLOSE for slot {j}, which belongs to no direct descriptor of the population, is queued")));
             }
         }
         for (sig, what) in fails {
@@ -611,20 +817,29 @@ impl TdCase {
         ok
     }
 
-    fn make_spec(&self, i: usize, res: i32) -> Option<PostSpec> {
+    fn make_spec(&self, i: usize, res: i32, flags: u32) -> Option<PostSpec> {
         let ud = self.ops.get(i)?.ud_inflight?;
         let kind = &self.ops[i].kind;
-        let mut spec = PostSpec::new(Target::UserData(ud), res, 0);
-        if res > 0 && (kind == "read" || kind == "pread") {
+        let mut spec = PostSpec::new(Target::UserData(ud), res, flags);
+        if res > 0 && (kind == "read" || pool_kind(kind)) {
             spec.data = Some(vec![0xCD; res as usize]);
-            spec.select_buf = kind == "pread";
+            spec.select_buf = pool_kind(kind);
         }
         Some(spec)
     }
 
-    fn res_ok(&self, i: usize, res: i64) -> bool {
+    /// Mirrors `postOk` of the model.
+    fn res_ok(&self, i: usize, res: i64, flags: u32) -> bool {
         let Some(o) = self.ops.get(i) else { return false };
-        !(o.kind == "unlink" && res > 0) && (-4095..=64).contains(&res)
+        let fl_ok = flags == 0
+            || (flags == simk::CQE_F_MORE && (o.kind == "mread" || o.kind == "sendzc"))
+            || (flags == simk::CQE_F_NOTIF && o.kind == "sendzc");
+        !(o.kind == "unlink" && res > 0) && (-4095..=64).contains(&res) && fl_ok
+    }
+
+    /// The completion selects a buffer of the pool's ring.
+    fn takes_buf(&self, i: usize, res: i64) -> bool {
+        res > 0 && self.ops.get(i).is_some_and(|o| pool_kind(&o.kind))
     }
 
     fn ring_fd_open(&self) -> bool {
@@ -717,6 +932,21 @@ impl TdCase {
                             let st = state_block_of(&fut, mark);
                             (Box::new(FutOp { fut: Box::pin(fut), canon: |n: usize| (n.to_string(), None) }), st)
                         }
+                        "sendzc" => {
+                            let buf: Vec<u8> = vec![0x7E; 64];
+                            let mark = track::next_id();
+                            let fut = fd.send(buf).zc();
+                            let st = state_block_of(&fut, mark);
+                            (Box::new(FutOp { fut: Box::pin(fut), canon: |n: usize| (n.to_string(), None) }), st)
+                        }
+                        "mread" => {
+                            let Some(pool) = self.pool.as_ref() else { return bad() };
+                            let pool = pool.clone();
+                            let mark = track::next_id();
+                            let it = fd.multishot_read(pool);
+                            let st = state_block_of(&it, mark);
+                            (Box::new(MRead(Box::pin(it))), st)
+                        }
                         _ => {
                             let Some(pool) = self.pool.as_ref() else { return bad() };
                             let buf = pool.get();
@@ -731,8 +961,10 @@ impl TdCase {
                     track::watch(b.base);
                     self.addr2op.insert(b.base, i);
                 }
+                self.feat(&format!("kind/{kind}"));
                 self.ops.push(OpSlot {
                     kind: kind.to_string(),
+                    multi: *kind == "mread",
                     fd: fdi,
                     obj: Some(obj),
                     state_addr: state.map(|b| b.base),
@@ -762,8 +994,11 @@ impl TdCase {
                     Err(_) => out.push("panic".into()),
                     Ok(None) => out.push("pending".into()),
                     Ok(Some((line, buf))) => {
-                        self.ops[i].finished = true;
-                        self.ops[i].ud_inflight = None;
+                        // a stream ends with `None`; its items leave it running
+                        if !self.ops[i].multi || line == "ready none" {
+                            self.ops[i].finished = true;
+                            self.ops[i].ud_inflight = None;
+                        }
                         new_buf = buf;
                         out.push(line);
                     }
@@ -785,14 +1020,22 @@ impl TdCase {
                 out.extend(self.events());
                 self.fx(&mut out);
             }
-            ["teardown", "kpost", i, res] => {
+            ["teardown", "kpost", i, res] | ["teardown", "kpost", i, res, _] => {
                 let (Some(i), Some(res)) = (strict_u64(i).map(|n| n as usize), strict_i64(res)) else { return bad() };
-                if i >= self.ops.len() || !self.ring_fd_open() || !self.res_ok(i, res) {
+                let Some(flags) = (if t.len() == 5 { parse_flags(t[4]) } else { Some(0) }) else { return bad() };
+                if i >= self.ops.len() || !self.ring_fd_open() || !self.res_ok(i, res, flags) {
                     return bad();
                 }
-                let Some(spec) = self.make_spec(i, res as i32) else {
+                let Some(spec) = self.make_spec(i, res as i32, flags) else {
                     return vec!["miss".into()];
                 };
+                if simk::with_ring(self.rfd, |r, _| r.find_inflight(&spec.target)).is_none() {
+                    return vec!["miss".into()];
+                }
+                let takes = self.takes_buf(i, res);
+                if takes && self.pbuf_left == 0 {
+                    return vec!["nobuf".into()];
+                }
                 let r = simk::with_ring(self.rfd, |r, ev| {
                     r.find_inflight(&spec.target)?;
                     let n = ev.len();
@@ -803,7 +1046,14 @@ impl TdCase {
                 match r {
                     None => out.push("miss".into()),
                     Some(direct) => {
-                        self.ops[i].ud_inflight = None;
+                        if takes {
+                            self.pbuf_left -= 1;
+                        }
+                        if flags & simk::CQE_F_MORE == 0 {
+                            self.ops[i].ud_inflight = None;
+                        } else {
+                            self.feat(&format!("more-completion/{}", self.ops[i].kind));
+                        }
                         out.push(if direct { "posted".into() } else { "overflow".into() });
                         if !direct {
                             self.feat("cq-overflow");
@@ -813,15 +1063,16 @@ impl TdCase {
                 self.events();
             }
             ["teardown", "rpoll", posts] => {
-                let mut ps: Vec<(usize, i64)> = Vec::new();
+                let mut ps: Vec<(usize, i64, u32)> = Vec::new();
                 if *posts != "-" {
                     for p in posts.split(',') {
                         let f: Vec<&str> = p.split(':').collect();
-                        if f.len() != 2 {
+                        if f.len() != 2 && f.len() != 3 {
                             return bad();
                         }
                         let (Some(a), Some(b)) = (strict_u64(f[0]), strict_i64(f[1])) else { return bad() };
-                        ps.push((a as usize, b));
+                        let Some(fl) = (if f.len() == 3 { parse_flags(f[2]) } else { Some(0) }) else { return bad() };
+                        ps.push((a as usize, b, fl));
                     }
                 }
                 if self.ring.is_none() {
@@ -832,17 +1083,31 @@ impl TdCase {
                     return vec!["unsafe-state".into()];
                 }
                 let will_enter = simk::with_ring(self.rfd, |r, _| r.cq_count() == 0);
-                let mut scripted: Vec<(usize, u64)> = Vec::new();
+                let mut scripted: Vec<(usize, u64, bool)> = Vec::new();
                 if will_enter {
                     let mut specs = Vec::new();
-                    // user_data of operations whose submission is still only published
-                    for (i, res) in &ps {
-                        if !self.res_ok(*i, *res) {
+                    // The completions are posted one after the other (as the model does):
+                    // one for an operation finalised earlier in this batch misses, one that
+                    // needs a pool buffer when none is left is not posted.
+                    let mut gone: Vec<usize> = Vec::new();
+                    for (i, res, fl) in &ps {
+                        if !self.res_ok(*i, *res, *fl) || gone.contains(i) {
                             continue;
                         }
-                        if let Some(spec) = self.make_spec(*i, *res as i32) {
+                        if let Some(spec) = self.make_spec(*i, *res as i32, *fl) {
+                            let takes = self.takes_buf(*i, *res);
+                            if takes && self.pbuf_left == 0 {
+                                continue;
+                            }
+                            if takes {
+                                self.pbuf_left -= 1;
+                            }
+                            let fin = *fl & simk::CQE_F_MORE == 0;
+                            if fin {
+                                gone.push(*i);
+                            }
                             if let Target::UserData(ud) = spec.target {
-                                scripted.push((*i, ud));
+                                scripted.push((*i, ud, fin));
                             }
                             specs.push(spec);
                         }
@@ -857,9 +1122,11 @@ impl TdCase {
                 self.ring = Some(ring);
                 simk::with_ring(self.rfd, |r, _| r.enter_scripts.clear());
                 let evs = simk::with_sim(|s| s.events.clone());
-                for (i, ud) in scripted {
+                for (i, ud, fin) in scripted {
                     if evs.iter().any(|e| matches!(e, KEv::Posted { seq: Some(_), cqe, .. } if cqe.user_data == ud)) {
-                        self.ops[i].ud_inflight = None;
+                        if fin {
+                            self.ops[i].ud_inflight = None;
+                        }
                         self.feat("post-during-enter");
                     }
                 }
@@ -885,6 +1152,19 @@ impl TdCase {
                 for i in 0..self.ops.len() {
                     let st = self.status_of(i);
                     self.feat(&format!("at-ring-drop/{st}"));
+                    if self.ops[i].kind == "mread" || self.ops[i].kind == "sendzc" {
+                        let kind = self.ops[i].kind.clone();
+                        let st = if st == "abandoned" && self.ops[i].ud_inflight.is_some() { "abandoned-in-flight" } else { st };
+                        self.feat(&format!("at-ring-drop/{kind}/{st}"));
+                        let got_more = self.ops[i].ud_inflight.is_some_and(|ud| {
+                            simk::with_ring(self.rfd, |r, _| r.inflight.iter().any(|x| x.sqe.user_data == ud && x.posted > 0))
+                        });
+                        if got_more {
+                            // in flight with completions already delivered: a stream with items,
+                            // a zero-copy send between its result and its notification
+                            self.feat(&format!("at-ring-drop/{kind}/between-completions"));
+                        }
+                    }
                 }
                 let (inflight, cq_room) = simk::with_ring(self.rfd, |r, _| {
                     (r.inflight.len() as u32 + r.sq_pending(), r.cq_entries - r.cq_count())
@@ -927,23 +1207,53 @@ impl TdCase {
                 out.extend(self.events());
                 self.fx(&mut out);
             }
-            ["teardown", "drop", "fd", k] => {
+            ["teardown", "drop", "fd", k] | ["teardown", "drop", "dfd", k] => {
+                let want_direct = t[2] == "dfd";
                 let Some(k) = strict_u64(k).map(|n| n as usize) else { return bad() };
-                if k >= self.fds.len() || self.fds[k].ptr.is_none() {
+                if k >= self.fds.len() || self.fds[k].ptr.is_none() || self.fds[k].slot.is_some() != want_direct {
                     return bad();
                 }
                 if self.ops.iter().any(|o| o.kind != "unlink" && o.fd == k && o.obj.is_some()) {
                     return bad();
                 }
                 self.note_drop("fd");
+                let slot = self.fds[k].slot;
+                if slot.is_some() {
+                    self.feat(if self.ring_dropped { "direct/drop-after-ring" } else { "direct/drop-before-ring" });
+                    if self.last_holder() == Some("fd") {
+                        self.feat("direct/last-handle");
+                    }
+                    self.fds[k].dropped_after_ring = self.ring_dropped;
+                }
                 let old_tail = simk::with_ring(self.rfd, |r, _| r.sq_tail());
                 let p = self.fds[k].ptr.take().unwrap();
                 let _ = util::catch(move || drop(unsafe { Box::from_raw(p) }));
                 let lines = self.new_sqes(old_tail, None);
+                if let Some(j) = slot {
+                    // whatever this drop published must be the CLOSE of its own slot
+                    for l in &lines {
+                        if l.starts_with("sqe close") && *l != format!("sqe close slot{j}") {
+                            self.fail("C12/direct-release-wrong-slot", format!("dropping the AsyncFd of slot {j} published `{l}`"));
+                        }
+                    }
+                    if lines.iter().any(|l| l.starts_with("sqe close slot")) {
+                        self.feat("direct/queued-close");
+                        if self.ring_dropped {
+                            self.feat("direct/queued-close-after-ring");
+                        }
+                    }
+                }
                 out.extend(lines);
                 let ev = self.events();
                 if ev.iter().any(|l| l.starts_with("close fd")) {
                     self.feat("sync-close-fallback");
+                }
+                if let Some(j) = slot {
+                    for l in &ev {
+                        if l.starts_with("register files-update") && !l.starts_with(&format!("register files-update slot{j} ")) {
+                            self.fail("C12/direct-release-wrong-slot", format!("dropping the AsyncFd of slot {j} with the submission queue full made the call `{l}` instead of releasing slot {j}"));
+                        }
+                    }
                 }
                 out.extend(ev);
                 self.fx(&mut out);
@@ -1017,7 +1327,7 @@ impl TdCase {
             }
             if o.frees == 0 {
                 if o.late {
-                    late_pool |= o.kind == "pread";
+                    late_pool |= pool_kind(&o.kind);
                     fails.push((
                         format!("C12/op-started-after-ring-drop/{}", o.kind),
                         format!("op{i} ({}) was submitted after the Ring had been dropped and its future was dropped while Running: nobody processes completions any more, its state box is never reclaimed", o.kind),
@@ -1055,6 +1365,9 @@ impl TdCase {
             }
             // regular descriptors
             for (k, f) in self.fds.iter().enumerate() {
+                if f.slot.is_some() {
+                    continue;
+                }
                 let open = unsafe { libc::fcntl(f.raw, libc::F_GETFD) } != -1;
                 if open {
                     fails.push(("C12/fd-left-open".into(), format!("descriptor fd{k} ({}) is still open after its AsyncFd, the Ring and every handle were dropped", f.raw)));
@@ -1083,9 +1396,66 @@ impl TdCase {
                 }
             }
         }
+        // direct descriptors: every slot of the population released exactly once, the table
+        // empty when the ring descriptor (with which the kernel destroys it) was closed.
+        // (With the known late pool read `Shared` is never dropped: a CLOSE still queued
+        // is part of that finding.)
+        for k in 0..self.fds.len() {
+            let Some(j) = self.fds[k].slot else { continue };
+            if late_pool && self.queued_slot_closes(j) > 0 {
+                continue;
+            }
+            let n = self.fds[k].close_reqs;
+            if self.slot_registered(j) {
+                fails.push(("C12/direct-slot-left-registered".into(), format!("slot {j} of the file table (direct descriptor fd{k}) still holds its file after its AsyncFd, the Ring and every handle were dropped ({n} release requests were executed for it)")));
+            } else if n != 1 {
+                fails.push(("C12/direct-slot-release-count".into(), format!("slot {j} (direct descriptor fd{k}) was released {n} times")));
+            }
+        }
+        let reg_left: Vec<usize> = simk::with_ring(self.rfd, |r, _| {
+            r.files.as_ref().map(|f| f.iter().enumerate().filter(|(_, s)| s.is_some()).map(|(i, _)| i).collect()).unwrap_or_default()
+        });
+        for j in reg_left {
+            if self.slot_owner(j as u32).is_none() {
+                fails.push(("C12/direct-table-not-empty".into(), format!("slot {j} of the file table holds a file nobody of the population put there")));
+            }
+        }
         for (sig, what) in fails {
             self.fail(&sig, what);
         }
+    }
+}
+
+/// Open a DIRECT descriptor through the public API on the still idle ring: the
+/// simulated kernel registers a file in slot `slot` of the table and answers the
+/// OPENAT (`file_index = IORING_FILE_INDEX_ALLOC`) with that index.
+fn open_direct(ring: &mut Ring, rfd: i32, slot: u32) -> Option<AsyncFd> {
+    let fut = a10::fs::OpenOptions::new().kind(a10::fd::Kind::Direct).open(ring.sq(), "/dev/null".into());
+    let mut fut = Box::pin(fut);
+    let waker = util::waker(u32::MAX);
+    let mut cx = Context::from_waker(&waker);
+    if fut.as_mut().poll(&mut cx).is_ready() {
+        return None;
+    }
+    let ok = simk::with_ring(rfd, |r, _| {
+        let Some(files) = r.files.as_mut() else { return false };
+        let Some(s) = files.get_mut(slot as usize) else { return false };
+        if s.is_some() {
+            return false;
+        }
+        *s = Some(1);
+        r.enter_scripts.clear();
+        r.enter_scripts.push_back(simk::EnterScript { post: vec![PostSpec::new(Target::Nth(0), slot as i32, 0)], ..Default::default() });
+        true
+    });
+    if !ok {
+        return None;
+    }
+    ring.poll(Some(Duration::ZERO)).ok()?;
+    simk::with_ring(rfd, |r, _| r.enter_scripts.clear());
+    match fut.as_mut().poll(&mut cx) {
+        Poll::Ready(Ok(fd)) if matches!(fd.kind(), a10::fd::Kind::Direct) => Some(fd),
+        _ => None,
     }
 }
 
@@ -1138,7 +1508,7 @@ impl Case for TdCase {
                 0 => format!("teardown poll {} 99", rng.below(n)),
                 1 => format!("teardown drop op {}", rng.below(n)),
                 2 => format!("teardown kpost {} 1", rng.below(n)),
-                3 => format!("teardown drop fd {}", rng.below(self.fds.len() as u64 + 1)),
+                3 => format!("teardown drop {} {}", if rng.chance(1, 2) { "fd" } else { "dfd" }, rng.below(self.fds.len() as u64 + 1)),
                 4 => format!("teardown drop clone {}", rng.below(self.clones.len() as u64 + 1)),
                 5 => format!("teardown drop buf {}", rng.below(self.bufs.len() as u64 + 1)),
                 6 => "teardown drop pool".into(),
@@ -1170,7 +1540,7 @@ impl Case for TdCase {
         }
         for k in &live_fds {
             if !self.ops.iter().any(|o| o.kind != "unlink" && o.fd == *k && o.obj.is_some()) {
-                drops.push(format!("teardown drop fd {k}"));
+                drops.push(format!("teardown drop {} {k}", if self.fds[*k].slot.is_some() { "dfd" } else { "fd" }));
             }
         }
         for i in &live_ops {
@@ -1208,6 +1578,13 @@ impl Case for TdCase {
             let i = *rng.pick(&ready);
             return Some(format!("teardown poll {i} {}", i as u64 * 10));
         }
+        // a direct descriptor dropped while the submission queue is full takes the
+        // synchronous FILES_UPDATE path: take that opportunity more often than chance would
+        let sq_full = self.ring_fd_open() && simk::with_ring(self.rfd, |r, _| r.sq_pending()) >= self.sq_len;
+        let direct_drops: Vec<&String> = drops.iter().filter(|d| d.starts_with("teardown drop dfd")).collect();
+        if sq_full && !direct_drops.is_empty() && rng.chance(1, 3) {
+            return Some((*rng.pick(&direct_drops)).clone());
+        }
         let cq_waiting = self.ring.is_some() && simk::with_ring(self.rfd, |r, _| r.cq_count() > 0 || !r.overflow.is_empty());
         if cq_waiting && rng.chance(1, 5) {
             return Some("teardown rpoll -".into());
@@ -1216,9 +1593,9 @@ impl Case for TdCase {
             0 => {
                 let mut kinds: Vec<&str> = Vec::new();
                 if !live_fds.is_empty() {
-                    kinds.extend(["read", "write", "read"]);
+                    kinds.extend(["read", "write", "read", "sendzc"]);
                     if self.pool.is_some() {
-                        kinds.extend(["pread", "pread"]);
+                        kinds.extend(["pread", "pread", "mread", "mread"]);
                     }
                 }
                 if self.ring.is_some() || !live_clones.is_empty() {
@@ -1237,14 +1614,16 @@ impl Case for TdCase {
             }
             2 => {
                 let i = *rng.pick(&inflight);
-                Some(format!("teardown kpost {i} {}", self.gen_res(rng, i)))
+                let (res, fl) = self.gen_res(rng, i);
+                Some(if fl.is_empty() { format!("teardown kpost {i} {res}") } else { format!("teardown kpost {i} {res} {fl}") })
             }
             3 => {
                 let mut posts = Vec::new();
                 if rng.chance(1, 3) && !self.ops.is_empty() {
                     for _ in 0..rng.range(1, 2) {
                         let i = rng.below(self.ops.len() as u64) as usize;
-                        posts.push(format!("{i}:{}", self.gen_res(rng, i)));
+                        let (res, fl) = self.gen_res(rng, i);
+                        posts.push(if fl.is_empty() { format!("{i}:{res}") } else { format!("{i}:{res}:{fl}") });
                     }
                 }
                 Some(format!("teardown rpoll {}", if posts.is_empty() { "-".to_string() } else { posts.join(",") }))
@@ -1354,7 +1733,7 @@ impl Case for TdCase {
         // Clean up what a10 left behind so the next case starts from a clean process.
         a10::verif::set_hook(None);
         for f in &self.fds {
-            if unsafe { libc::fcntl(f.raw, libc::F_GETFD) } != -1 {
+            if f.slot.is_none() && unsafe { libc::fcntl(f.raw, libc::F_GETFD) } != -1 {
                 unsafe { libc::close(f.raw) };
             }
         }
@@ -1378,16 +1757,46 @@ impl Case for TdCase {
 }
 
 impl TdCase {
-    fn gen_res(&mut self, rng: &mut Rng, i: usize) -> i64 {
+    /// A result the kernel could post for operation `i`: `(res, flags token)`.
+    fn gen_res(&mut self, rng: &mut Rng, i: usize) -> (i64, &'static str) {
         let errs = [-(libc::EINTR as i64), -(libc::ECANCELED as i64), -(libc::EIO as i64), -(libc::EAGAIN as i64)];
-        let Some(o) = self.ops.get(i) else { return 1 };
+        let Some(o) = self.ops.get(i) else { return (1, "") };
         if o.kind == "unlink" {
-            return if rng.chance(2, 3) { 0 } else { *rng.pick(&errs) };
+            return (if rng.chance(2, 3) { 0 } else { *rng.pick(&errs) }, "");
+        }
+        // completions already posted for the submission in flight
+        let posted = if self.ring_fd_open() {
+            simk::with_ring(self.rfd, |r, _| {
+                o.ud_inflight.and_then(|ud| r.inflight.iter().find(|x| x.sqe.user_data == ud).map(|x| x.posted)).unwrap_or(0)
+            })
+        } else {
+            0
+        };
+        if o.kind == "sendzc" {
+            // result with F_MORE, then the notification; or a plain error
+            return if posted >= 1 {
+                (0, "n")
+            } else {
+                match rng.weighted(&[6, 2, 1]) {
+                    0 => (rng.range(1, 64) as i64, "m"),
+                    1 => (*rng.pick(&errs), ""),
+                    _ => (*rng.pick(&errs[..2]), "m"),
+                }
+            };
+        }
+        if o.kind == "mread" {
+            let merrs = [-(libc::ECANCELED as i64), -(libc::EINTR as i64), -(libc::ENOBUFS as i64), -(libc::EIO as i64)];
+            return match rng.weighted(&[8, 2, 2, 1]) {
+                0 => (rng.range(1, 64) as i64, "m"),
+                1 => (0, ""),
+                2 => (*rng.pick(&merrs), ""),
+                _ => (rng.range(1, 64) as i64, ""),
+            };
         }
         match rng.weighted(&[7, 1, 3]) {
-            0 => rng.range(1, 64) as i64,
-            1 => 0,
-            _ => *rng.pick(&errs),
+            0 => (rng.range(1, 64) as i64, ""),
+            1 => (0, ""),
+            _ => (*rng.pick(&errs), ""),
         }
     }
 }
@@ -1397,7 +1806,7 @@ impl Comp for TeardownComp {
         "teardown"
     }
     fn rule(&self) -> String {
-        "each case = one ring (sq in {1,2,4}, cq in {sq..4sq}, random initial 32-bit counters) with 0-2 extra SubmissionQueue clones, 1-3 regular AsyncFds, optionally a ReadBufPool, up to 8 real operations (read, write, pool read, remove_file = a future owning its own SubmissionQueue); a random activity phase (new/poll/kpost/rpoll with completions posted during enter, early drops) followed by dropping EVERY remaining object in a random order (an AsyncFd only after the futures borrowing it), still interleaved with polls, completions and Ring::poll; plus a malformed stream (unknown / dead objects, drops the borrow checker forbids). non-trivial = some handle (clone, AsyncFd, pool, ReadBuf, future) is dropped after the Ring, or the Ring is dropped with published / in-flight / abandoned operations; distinct = distinct op scripts".into()
+        "each case = one ring (sq in {1,2,4}, cq in {sq..4sq}, random initial 32-bit counters) with 0-2 extra SubmissionQueue clones, 1-4 AsyncFds (in half of the cases the ring has a registered-file table and a non-empty subset of them are DIRECT descriptors opened through the public API before the script starts; they are dropped before/after the Ring, with the queue full = synchronous FILES_UPDATE fallback, or not = queued CLOSE with file_index), optionally a ReadBufPool, up to 8 real operations (read, write, pool read, remove_file = a future owning its own SubmissionQueue, MULTISHOT read with the pool = a stream whose items are ReadBufs, ZERO-COPY send = two completions); a random activity phase (new/poll/kpost/rpoll with completions posted during enter, early drops) followed by dropping EVERY remaining object in a random order (an AsyncFd only after the futures borrowing it), still interleaved with polls, completions and Ring::poll; plus a malformed stream (unknown / dead objects, drops the borrow checker forbids). non-trivial = some handle (clone, AsyncFd, pool, ReadBuf, future) is dropped after the Ring, or the Ring is dropped with published / in-flight / abandoned operations; distinct = distinct op scripts".into()
     }
     fn gen_header(&mut self, rng: &mut Rng, id: u64, _tier: &str) -> String {
         let sq = *rng.pick(&[1u32, 2, 2, 4]);
@@ -1409,16 +1818,21 @@ impl Comp for TeardownComp {
                 _ => u32::MAX - rng.below(6) as u32,
             }
         };
-        format!(
-            "teardown begin {id} sq={sq} cq={cq} cqh={} sqh={} clones={} fds={} pool={} maxops={} steps={}",
-            ctr(rng),
-            ctr(rng),
-            rng.below(3),
-            rng.range(1, 3),
-            if rng.chance(2, 3) { 1 } else { 0 },
-            8,
-            rng.range(4, 36)
-        )
+        let (cqh, sqh, clones) = (ctr(rng), ctr(rng), rng.below(3));
+        // half of the cases have direct descriptors: 1-4 descriptors, a random non-empty
+        // subset of them direct (descriptor k = slot k), in a table with 0-2 spare slots
+        let direct = rng.chance(1, 2);
+        let fds = if direct { rng.range(1, 4) } else { rng.range(1, 3) };
+        let pool = if rng.chance(2, 3) { 1 } else { 0 };
+        let steps = rng.range(4, 36);
+        let mut h = format!("teardown begin {id} sq={sq} cq={cq} cqh={cqh} sqh={sqh} clones={clones} fds={fds} pool={pool} maxops=8 steps={steps}");
+        if direct {
+            let dmask = rng.range(1, (1 << fds) - 1);
+            let bits = 64 - dmask.leading_zeros() as u64;
+            let dtab = bits + rng.below(3);
+            h.push_str(&format!(" dmask={dmask} dtab={dtab}"));
+        }
+        h
     }
     fn begin(&mut self, header: &str) -> Box<dyn Case> {
         Box::new(TdCase::new(header))
